@@ -11,13 +11,14 @@ from mc.vm import hval
 _INT = {}
 INTER_CRYSTALS = [('FCC_O', 0), ('FCC_T', 0), ('FCC_OT', 0), ('FCC_OT', 2), ('BCC_O', 0), ('BCC_T', 0), ('HCP_OT', 0), ('HCP_OT', 1),
                   ('HONEY', 0), ('ROMEGA', 0), ('RUMPLED2', 0), ('WURTZ2', 0), ('P1', 1), ('RECTM', 0), ('HEXM', 1), ('KAGOME', 0),
-                  ('P1_3', 0), ('PMMM_G', 0), ('P2MM_G', 0), ('OBL3', 0)]
+                  ('P1_3', 0), ('PMMM_G', 0), ('P2MM_G', 0), ('OBL3', 0), ('POLAR4', 0), ('POLAR4', 1), ('PM2D', 0), ('PM2D', 1), ('TET4I', 0)]
 
 
 def calculator(name, icut):
     k = (name, icut)
     if k not in _INT:
-        crys, chem, sl, jn = catalog.network(name, icut)
+        from mc.refmodels import chain1      # POLAR4 / PM2D live there
+        crys, chem, sl, jn = chain1.network(catalog, name, icut)
         _INT[k] = {'calc': OnsagerCalc.Interstitial(crys, chem, sl, jn), 'crys': crys, 'chem': chem, 'sitelist': sl, 'jumpnetwork': jn}
     return _INT[k]
 
@@ -66,4 +67,12 @@ def dev_name(ent, devs):
 
 
 def D(ent, d):
-    return np.array(ent['calc'].diffusivity(d['pre'], d['betaene'], d['preT'], d['betaeneT']), dtype=float)
+    args = (d['pre'], d['betaene'], d['preT'], d['betaeneT'])
+    before = [np.array(x, copy=True) for x in args]
+    out = np.array(ent['calc'].diffusivity(*args), dtype=float)
+    if any(not np.array_equal(a, np.asarray(b)) for a, b in zip(before, args)):
+        # the caller's arrays were changed: a second call on 'the same arrays' must still give the same answer
+        out2 = np.array(ent['calc'].diffusivity(*args), dtype=float)
+        if np.abs(out - out2).max() > 1e-12 * max(np.abs(out).max(), 1e-300):
+            raise AssertionError('diffusivity modified its argument arrays in place and a second call with the same arrays differs')
+    return out
